@@ -501,6 +501,98 @@ def run_styles(ctx, uc, style_mod):
                 rec.count('style:volume-entries-checked')
 
 
+LAYOUTS = ['C', 'F', 'transposed', 'swapaxes', 'sliced', 'negative-stride', 'broadcast', 'float32', 'int', 'nested-list']
+LAYOUT_UNITS = ['angstrom', 'GPa', 'eV/angstrom^3', 'nm/ps', 'kg*m/s^2', 'mJ/m^2', None]
+A_MODEL = 'value_unit(model(x, u)) = x with every element at its own index'
+
+
+def make_layout(rng, kind, ndim):
+    """An array of rank ndim whose memory order differs from its index order in the named way, and its plain
+    C-ordered float64 twin (what the caller sees when indexing it)."""
+    shape = tuple(int(k) for k in rng.integers(2, 5, ndim))
+    base = rng.normal(size=shape) * 10 ** rng.uniform(-3, 3)
+    if kind == 'C':
+        x = np.ascontiguousarray(base)
+    elif kind == 'F':
+        x = np.asfortranarray(base)
+    elif kind == 'transposed':
+        x = np.ascontiguousarray(base.T).T                  # same values by index, axes reversed in memory
+    elif kind == 'swapaxes':
+        a, b = (0, ndim - 1)
+        x = np.swapaxes(np.ascontiguousarray(np.swapaxes(base, a, b)), a, b)
+    elif kind == 'sliced':
+        big = rng.normal(size=tuple(2 * k + 1 for k in shape))
+        sl = tuple(slice(1, 2 * k + 1, 2) for k in shape)
+        big[sl] = base
+        x = big[sl]
+    elif kind == 'negative-stride':
+        x = np.ascontiguousarray(base[::-1])[::-1]
+    elif kind == 'broadcast':
+        x = np.broadcast_to(base[:1].copy(), shape)
+        base = np.array(x)
+    elif kind == 'float32':
+        x = np.asfortranarray(base.astype(np.float32))
+        base = x.astype(float)
+    elif kind == 'int':
+        x = np.asfortranarray(rng.integers(-50, 50, shape))
+        base = x.astype(float)
+    elif kind == 'nested-list':
+        x = base.tolist()
+    else:
+        raise ValueError(kind)
+    assert np.array_equal(np.asarray(x, float), base)
+    return x, np.array(base, float)
+
+
+def run_layouts(ctx, uc):
+    """Arrays whose memory order is not their index order, through set/get_in_units and through model()/value_unit()/
+    error_unit(): every element stays at its own index."""
+    rec = ctx.rec
+    n = ctx.pick(140, 1400)
+    for i in ctx.cases('layouts', n):
+        rng = ctx.rng
+        kind = LAYOUTS[i % len(LAYOUTS)]
+        ndim = 1 + (i // len(LAYOUTS)) % 3
+        unit = LAYOUT_UNITS[(i // 3) % len(LAYOUT_UNITS)]
+        x, twin = make_layout(rng, kind, ndim)
+        err = etwin = None
+        if i % 2:
+            st = rng.bit_generator.state
+            err, etwin = make_layout(rng, kind, ndim)
+            if np.shape(etwin) != np.shape(twin):
+                err, etwin = (np.abs(twin.T).T * 0.01).tolist() if kind == 'nested-list' else None, np.abs(twin) * 0.01
+                if err is None:
+                    err = np.asfortranarray(etwin) if kind in ('F', 'float32', 'int') else np.ascontiguousarray(etwin.T).T
+            else:
+                etwin = np.abs(etwin)
+                err = np.abs(np.asarray(err, float)).tolist() if kind == 'nested-list' else np.ascontiguousarray(etwin.T).T
+        rec.case(('layout', kind, ndim, str(unit)), nontrivial=ndim > 1, fp=fingerprint(kind, ndim, str(unit), twin))
+        rec.count('layout:' + kind)
+        rec.count('layout:rank-%d' % ndim)
+        keep = np.array(x, copy=True) if isinstance(x, np.ndarray) else None
+        tol = 4e-7 if kind == 'float32' else 1e-14
+        if unit is not None:
+            with ctx.guard('set_in_units/get_in_units accept arrays of any memory layout', 'layout:roundtrip:exception:' + kind):
+                w = uc.set_in_units(x, unit)
+                rec.close(0.0, w, twin * uc.parse(unit), A_SET, 'layout:set_in_units:' + kind, rtol=tol)
+                rec.close(0.0, uc.get_in_units(w, unit), twin, A_ROUNDTRIP, 'layout:roundtrip:' + kind, rtol=tol)
+        with ctx.guard('model()/value_unit() accept arrays of any memory layout', 'layout:model:exception:' + kind):
+            kw = dict(error=err) if err is not None else {}
+            m = uc.model(x, unit, **kw)
+            back = uc.value_unit(m)
+            rec.check(np.shape(back) == twin.shape, 'value_unit(model(x, u)) has the shape of x', 'layout:model:shape:' + kind, got=np.shape(back), exp=twin.shape)
+            if np.shape(back) == twin.shape:
+                rec.close(0.0, back, twin, A_MODEL, 'layout:model:value:' + kind, rtol=tol)
+            if err is not None:
+                eb = uc.error_unit(m)
+                rec.check(np.shape(eb) == etwin.shape, 'error_unit(model(x, u, error=e)) has the shape of e', 'layout:model:error-shape:' + kind)
+                if np.shape(eb) == etwin.shape:
+                    rec.close(0.0, eb, etwin, 'error_unit(model(x, u, error=e)) = e with every element at its own index', 'layout:model:error:' + kind, rtol=tol)
+                rec.count('layout:with-error')
+        if keep is not None:
+            rec.check(np.array_equal(keep, x), 'conversion does not modify its argument', 'layout:mutates-input:' + kind)
+
+
 def reach(rec, uc_mod, style_mod):
     """Anchored code actually executed (sys.monitoring line events)."""
     for label, fn, suffix in (('reset_units', uc_mod.reset_units, 'atomman/unitconvert.py'),
@@ -538,6 +630,7 @@ def run(ctx):
         run_configs(ctx, uc)
         run_styles(ctx, uc, style_mod)
         run_expressions(ctx, uc)
+        run_layouts(ctx, uc)
     finally:
         restore_default(uc)
     reach(rec, uc, style_mod)
@@ -549,6 +642,10 @@ def run(ctx):
     # ---- coverage floors (merged over the workers) ---------------------------------
     q = ctx.quick
     rec.floor('monitor_calls:uc.parse', 20000)
+    for k in LAYOUTS:
+        rec.floor('layout:' + k, 10)
+    rec.floor('layout:with-error', 50)
+    rec.floor('clause:' + A_MODEL, 100)
     for cl, m in ((A_ROUNDTRIP, 10000), (A_SET, 10000), (A_LITERAL, 1000), (B_PARSE, 20000), (B_TABLE, 20000),
                   (C_DIFF, 10000), (C_SI, 500), (D_ONE, 87 * 4), (T_TABLE, 87 + 22), (E_DIM, 200), (E_SEED, 400),
                   (E_ORACLE, 200), (E_LJ, 3)):
